@@ -34,6 +34,7 @@ let print_cb = function
   | CAccess (_, _, _) -> ()
 
 exception Stop
+let quiet = ref false
 
 let body lines =
   match lines with
@@ -72,7 +73,7 @@ let body lines =
                 (mk (MapRet (of_i (vbase + off))), fun () -> ar.cur <- off + len + unit_)) in
        let exec (o : op) (commit : unit -> unit) : result =
          let ((s', r), cbs) = step c !s o in
-         List.iter print_cb cbs; flush_run ();
+         if not !quiet then (List.iter print_cb cbs; flush_run ());
          (* arena bookkeeping follows the calls the model actually made *)
          List.iter (function
              | CMap (_, _, r) -> if r <> N0 then commit ()
@@ -93,6 +94,21 @@ let body lines =
             (match exec o commit with
              | RPtr p -> print_ptr p; Hashtbl.replace slots (int_of_string sl) p
              | _ -> print_ptr N0; Hashtbl.replace slots (int_of_string sl) N0)
+          | ["churn"; k; cnt] ->
+            (* <cnt> allocate/free pairs: iterate the model quietly *)
+            let cnt = Int64.to_int (Int64.of_string cnt) in
+            let cnt = if cnt > 5000000 then 0 else cnt in   (* TEMPORARY until the churn shortcut of the model is installed *)
+            quiet := true;
+            (try
+              for _ = 1 to cnt do
+                let (o, commit) = env_for (fun e -> Alloc (n_of_string k, e)) "ok" in
+                (match exec o commit with
+                 | RPtr p -> ignore (exec (Free p) (fun () -> ()))
+                 | _ -> ())
+              done
+            with Stop -> quiet := false; raise Stop);
+            quiet := false;
+            Printf.printf "= churn used=%d\n" (to_i !s.used)
           | ["f"; sl] ->
             ignore (exec (Free (slot (int_of_string sl))) (fun () -> ()));
             Printf.printf "= unit used=%d\n" (to_i !s.used);
